@@ -779,6 +779,12 @@ func (sc *specCtx) call(x *ast.CallExpr, subs map[string]SpecExpr) Value {
 	case "pow2": // pow2(k) = 2^k (the function used for 1 << k)
 		f := u.d.Fun("pow2", []Sort{SInt}, SInt)
 		return intV(App(f, SInt, arg(0).term()))
+	case "fresh": // fresh(x): the reference x was allocated after the old state (unit entry / call time)
+		v := arg(0)
+		if sc.old == nil || sc.old.clock.S == "" {
+			sc.errorf("fresh() needs an old state")
+		}
+		return boolV(Gt(v.L[0], sc.old.clock))
 	case "off": // off(s): absolute position of the first element of slice s in its backing array
 		v := arg(0)
 		if !v.isSlice() {
